@@ -1,6 +1,6 @@
 (* Props/C17.v -- polar_array and cylinder chamfers. Over R, on the part models. *)
 From Coq Require Import Reals ZArith List.
-From SCAD Require Import Base.Num Base.NumR Base.Vec Text.Chars Text.Tree Parts.Thread Parts.Sem Parts.Parts_proofs.
+From SCAD Require Import Base.Num Base.NumR Base.Vec Base.Mat Text.Chars Text.Tree Parts.Thread Parts.Sem Parts.Parts_proofs.
 Import ListNotations.
 Local Open Scope R_scope.
 
@@ -23,3 +23,15 @@ Theorem C17_cylinder_chamfer :
      let q := pt3_add (pt3_rotated_x p 180) (Pt3 0 0 h) in
      x3 q = x3 p /\ y3 q = - y3 p /\ z3 q - h / 2 = - (z3 p - h / 2)).
 Proof. exact (conj cylinder_chamfer_cutters flip_is_mirror_about_mid_height). Qed.
+
+(* the same, semantically and for every seed s (also when s is itself a union): the placed items of the array are those of s
+   followed, for k = 0 .. count-1, by those of s moved by rotate([0, 0, k * (-degrees) / steps]), which is the rotation about Z *)
+Theorem C17_polar_array_placements : forall (s : scad R text) count degrees, degrees <= 360 ->
+  let steps := if Reqb degrees 360 then count else (count - 1)%Z in
+  exists t, polar_array s count degrees = Some t /\
+    placements t = placements s ++
+      flat_map (fun i => map (premul (mt4_rot_z_matrix ((IZR i * (- degrees)) / IZR steps))) (placements s)) (map Z.of_nat (seq 0 (Z.to_nat count))).
+Proof.
+  intros s count degrees Hd. cbv zeta. destruct (polar_array_placements s count degrees Hd) as [t [E P]]. exists t. split; [exact E|].
+  cbv zeta in P. rewrite P. f_equal. apply flat_map_ext. intros i. rewrite rot_zyx_is_rot_z. reflexivity.
+Qed.
